@@ -36,7 +36,8 @@ class Facts:
         return key
 
     def _place_key(self, pl):
-        return "place:%d:%s" % (pl["l"], "/".join(e if isinstance(e, str) else (("f%s" % e["f"]) if "f" in e else ("d%s" % e["d"])) for e in pl["p"]))
+        return "place:%d:%s" % (pl["l"], "/".join(e if isinstance(e, str) else (("f%s" % e["f"]) if "f" in e else (("d%s" % e["d"]) if "d" in e else
+                                                 "x" + "".join("%s%s" % (k_, e[k_]) for k_ in sorted(e) if not isinstance(e[k_], (dict, list))))) for e in pl["p"]))
 
     def _canon_place(self, pl):
         """follow single-definition copies / borrows of an unprojected local back to the place it stands for"""
